@@ -104,6 +104,12 @@ func runC19(p *eng.Prog, r *eng.Report, tier string) {
 	decoderSkipTypestate(c, "C19.9", inC19, 8)
 	// ---- C19.12 encoders emit field values verbatim
 	c19BlankLines(c, "C19.13")
+	nEC := emptyContentAccepted(c, "C19.20", inC19)
+	c.r.Floor("C19.20", "character-data assertions in the payload decoders", nEC, 1)
+	nAM := attrMarshalersByValue(c, "C19.19", c19Pkgs)
+	c.r.Floor("C19.19", "attribute fields with their own marshaler", nAM, 3)
+	nOpt := optionalPointerFields(c, "C19.18", inC19)
+	c.r.Note("C19.18: %d uses through optional pointer fields examined", nOpt)
 	nGate := emissionGatedBySibling(c, "C19.17", inC19)
 	c.r.Floor("C19.17", "uses of receiver fields in the payload encoders", nGate, 100)
 	nNm := qualifiedNamesStructured(c, "C19.16", inC19)
